@@ -121,7 +121,15 @@ impl<const N: usize, T: Send + Sync> AtomicIter<T> for ConIterOfArray<N, T> {
     }
 
     fn early_exit(&self) {
-        self.counter().store(N)
+        // the positions from the previous value of the counter on have not been reserved by any pull and, from now on,
+        // never will be: their elements can only be dropped here
+        let skipped_from = self.counter().swap(N).min(N);
+        unsafe {
+            let array = &mut *self.array.get();
+            let skipped =
+                std::ptr::slice_from_raw_parts_mut(array.as_mut_ptr().add(skipped_from), N - skipped_from);
+            std::ptr::drop_in_place(skipped);
+        }
     }
 }
 
